@@ -17,7 +17,7 @@ LEVEL = "exploration"
 ANCHORS = ["onl/sim/resources/container.py", "onl/sim/resources/store.py", "onl/sim/resources/base.py"]
 RULE = ("random put/get/cancel histories on Container / Store / PriorityStore / FilterStore (capacities incl. 1 "
         "and inf, initial levels, amounts from a small set so exact fills occur, equal-but-distinct items, filters "
-        "that match nothing for a while, 1-8 processes with patience time-outs, context-manager exits and pokes "
+        "that match nothing for a while and filters that answer with truthy / falsy non-bool values, 1-8 processes with patience time-outs, context-manager exits and pokes "
         "that cancel waiting requests -- in particular the head of a queue behind which a smaller request waits); "
         "non-trivial = some request waited, some waiting request was cancelled and >= 6 requests were granted; "
         "distinct by case hash")
